@@ -248,15 +248,27 @@ async def _run(ctx, ttext):
         for j, ov2 in enumerate(B.overlays):
             if j != i:
                 muts.append(("replay-into-other-overlay", ov2.get_prefix() + d[22:]))
-        for (mname, md) in muts:
-            # forget the peers named by the datagram's key field (in every overlay of the receiver), so that a
-            # verified-peer entry created by this very datagram is observable
+        for (mname, md, known_mode) in [(a, b, km) for (a, b) in muts for km in (False, True)]:
+            # mode 1: forget the peers named by the datagram's key field (in every overlay of the receiver), so that a
+            # verified-peer entry created by this very datagram is observable;
+            # mode 2: the named key already is a verified peer of the receiver (at another address): an unauthentic
+            # datagram naming it must still not reach a handler, nor move that peer's address
             kf = independent_auth(md)[1]
             for o2 in B.overlays:
                 nw = o2.network
                 for p in [p for p in list(nw.verified_peers) if p.public_key.key_to_bin() == kf]:
                     nw.remove_peer(p)
                 nw.verified_by_public_key_bin.pop(kf, None)
+            known_peers = []
+            if known_mode:
+                try:
+                    for o2 in B.overlays:
+                        kp = Peer(kf, ("10.9.9.9", 999))
+                        o2.network.add_verified_peer(kp)
+                        known_peers.append(kp)
+                except Exception:   # noqa - the key field is not a key the vault accepts: nothing to know
+                    continue
+                mname = mname + "+known-peer"
             before = {p.public_key.key_to_bin() for p in B.overlays[i].network.verified_peers}
             esc, evs, bodies = B.feed_from(src, md)
             await asyncio.sleep(0)
@@ -286,7 +298,14 @@ async def _run(ctx, ttext):
                 if not (auth_ok and newk == pk_field):
                     ctx.violation("verified-peer-without-signature/%s" % mname,
                                   "key %s became a verified peer through a datagram not signed by it" % newk.hex()[:16], m)
-            if mname == "unmutated" and not entered_signed and kind == "signed":
+            if known_peers and not auth_ok:
+                for kp in known_peers:
+                    if kp.address != ("10.9.9.9", 999):
+                        ctx.violation("verified-peer-address-moved-without-signature/%s" % mname,
+                                      "the verified peer %s was moved to %r by a datagram without a valid signature" % (
+                                          kf.hex()[:16], kp.address), m)
+                        break
+            if mname.startswith("unmutated") and not entered_signed and kind == "signed":
                 ctx.violation("authentic-datagram-rejected", "a valid %s datagram (%s) did not reach its handler" % (type(ov).__name__, how), m)
             # correspondence with the model of the decorator (only for datagrams addressed to this overlay's signed id)
             if kind == "signed" and md[:22] == ov.get_prefix() and len(md) > 22 and md[22] == d[22] and len(md) <= 600:
